@@ -92,3 +92,26 @@ Definition rng_case_ok (c : rng_case) : bool :=
 
 Definition rng_mismatches (cs : list rng_case) : list N :=
   map rc_id (filter (fun c => negb (rng_case_ok c)) cs).
+
+(* ---- C16: select hints correspondence ---------------------------------- *)
+From Verif Require Import Hints HintsProofs.
+
+Record hint_case := mkHC { hc_id : N; hc_expr : expr; hc_window : window; hc_lb : Z; hc_observed : list sel }.
+
+Definition subsetb {A} (eqb : A -> A -> bool) (l1 l2 : list A) : bool :=
+  forallb (fun x => existsb (eqb x) l2) l1.
+
+Definition nset_eqb (a b : list N) : bool := subsetb N.eqb a b && subsetb N.eqb b a.
+
+Definition sel_eqb (a b : sel) : bool :=
+  list_eqb matcher_eqb (s_ms a) (s_ms b) && Z.eqb (s_start a) (s_start b) && Z.eqb (s_end a) (s_end b)
+  && Z.eqb (s_step a) (s_step b) && Z.eqb (s_range a) (s_range b) && String.eqb (s_func a) (s_func b)
+  && nset_eqb (s_grp a) (s_grp b) && Bool.eqb (s_by a) (s_by b).
+
+Definition hint_case_ok (c : hint_case) : bool :=
+  let m := eng_selects (hc_window c) (hc_lb c) (mkH "" [] false) (hc_expr c) in
+  subsetb sel_eqb m (hc_observed c) && subsetb sel_eqb (hc_observed c) m
+  && mat_calls_unary (hc_expr c).
+
+Definition hint_mismatches (cs : list hint_case) : list N :=
+  map hc_id (filter (fun c => negb (hint_case_ok c)) cs).
